@@ -1642,7 +1642,7 @@ class _rrulestr(object):
 
         for datestr in date_value.split(','):
             date = parser.parse(datestr, ignoretz=ignoretz, tzinfos=tzinfos)
-            if TZID is not None:
+            if TZID is not None and not ignoretz:
                 if date.tzinfo is None:
                     date = date.replace(tzinfo=TZID)
                 else:
